@@ -29,6 +29,15 @@ def generate(seed, tier):
     T = S['knobs'].randint(1, 8)
     block, meta = gen_block(rng, 'contractive', T=T, n=rng.randint(1, 6), rich=True,
                             tol_text=S['knobs'].choice([None, None, '1e-6', '1e-10']))
+    if S['swarm'].random() < 0.03:
+        # the final equation text of a seeded ECON program (alias chains and decoration as the framework emits them)
+        eb = eqncases.econ_block(seed)
+        if eb is not None:
+            block = eb[0]
+            block['err_tol'] = None
+            knobs = {'reduction': True, 'tol_param': 1e-11, 'cap': 5000, 'trace_step': None, 'maxtime_attr': None, 'tick_var': None}
+            return {'kind': 'EQN', 'profile': 'reduction_twin_econ_text', 'drive': 'mono', 'faults': [], 'expect': {},
+                    'block': block, 'knobs': knobs, 'meta': {'q': None, 'n': len(block['eqs']), 'nonlinear': True}}
     # extra aliases on top of what the grammar drew: chains through aliases carrying initial conditions
     extra = S['topology'].choice([0, 1, 2, 3])
     pool = [v for v, _ in block['eqs']] + [l for l, _, _ in block['lags']] + [v for v, _ in block['exo']]
